@@ -18,6 +18,8 @@ OBLIGATIONS = [
     "Pkgcore.C36.partial_kept_for_resume",
     "Pkgcore.C36.partial_survives_failed_fetch",
     "Pkgcore.C36.wrong_checksum_never_reported",
+    "Pkgcore.C36.nonzero_status_is_failure",
+    "Pkgcore.C36.fetchSeq_each_verified",
     "Pkgcore.C36.unfixed_loop_counterexample",
 ]
 TRUSTED = [
@@ -26,6 +28,8 @@ TRUSTED = [
     "the external fetch command is an arbitrary function (k-th run -> file left, exit status); spawn_bash itself is exercised by a "
     "real bash fetch script in part of the cases and replaced by a recording stub in the rest",
     "hash collisions are ignored (a content different from the expected one is assumed to fail a stated hash)",
+    "the value spawn_bash returns is 0, an exit code 1..255, or signal << 8 (| 0x80 << 8 with a core dump), as computed by "
+    "snakeoil.process.spawn.process_exit_code; the stub returns such values, the bash script exits with the code or kills itself with the signal",
 ]
 ASSUMPTIONS = [
     "every checksum type listed by the target has a snakeoil handler (otherwise _verify raises MissingChksumHandler before looking at the file)",
@@ -37,7 +41,10 @@ ASSUMPTIONS = [
     "complete download is a zero exit status of the fetch command (the code discards the file otherwise)",
 ]
 RULE = ("a case = (target checksums: size and/or 0-3 hashes, consistent or deliberately inconsistent; attempts 0-4; initial file; one outcome per URI, "
-        "0-5 URIs: nothing/deleted, empty, partial prefix, oversized, same-size corrupt, correct, size-matching-but-wrong, each with exit 0 or !=0); "
+        "0-5 URIs: nothing/deleted, empty, partial prefix, oversized, same-size corrupt, correct, size-matching-but-wrong, each with status 0, an exit "
+        "code 1..255 or a signal kill (signal << 8)); stand-alone on a fresh fetcher object, or as one of 2-4 fetches on ONE long-lived fetcher "
+        "object and distdir (same file name with the same / re-rolled / longer / shorter content and another checksum set, file left in place or "
+        "replaced from outside, a second file name interleaved); "
         "real files and real checksums in a scratch distdir, fetch through fetcher.__call__/fetch; "
         "non-trivial = at least one run of the fetch command was executed by the real loop; key = abstract target + attempts + abstract initial file "
         "+ abstract executed outcomes")
@@ -52,12 +59,53 @@ LEVEL_TEXT = ("Kernel-checked Lean 4 theorems about a model of fetcher.fetch/_ve
               "sequences (stubbed spawn_bash and a real bash fetch script), comparing result, final file and per-run command/URI/handed file, and "
               "by evaluating the property clauses directly on the real code with a hashlib oracle, including a fresh re-read of the reported "
               "file through get_path() of a new fetcher object; every model/implementation disagreement is followed by an evaluation of the "
-              "property on the real code for the neighbouring inputs (shrinks, flipped exit statuses, one more successful attempt).")
+              "property on the real code for the neighbouring inputs (shrinks, flipped exit statuses, one more successful attempt). "
+              "Every non-zero spawn status, including signal kills whose low byte is 0, is a failure for checksum-less targets "
+              "(nonzero_status_is_failure); in any history of fetches on one fetcher object each returned file is verified against the "
+              "target of that very fetch (fetchSeq_each_verified) -- the correspondence replays such histories on one real fetcher object.")
 LEVEL_NOTE = ("Trusted: Lean kernel; standard axioms only; the abstraction of files to (size, checksums match); the behaviour of the external "
               "fetch command is universally quantified in the theorems and sampled in the correspondence.")
 
 HASHES = ["sha256", "sha512", "blake2b", "md5", "sha1"]
 FNAME = "distfile-1.0.tar.gz"
+FNAME2 = "other-2.0.tar.xz"
+
+
+class Fail(tuple):
+    """exit part of an outcome for a run that did NOT succeed, carrying the concrete value spawn_bash returns:
+    an exit code 1..255, or `signal << 8` (`(0x80 | signal) << 8` with a core dump) for a command killed by a signal
+    (snakeoil.process.spawn.process_exit_code).  The exit part of an outcome is True (status 0), False (some exit
+    code 1..90 chosen by position) or a Fail; only True is truthy."""
+
+    def __new__(cls, status):
+        assert status != 0
+        return tuple.__new__(cls, (status,))
+
+    def __bool__(self):
+        return False
+
+    status = property(lambda self: self[0])
+
+    def __repr__(self):
+        return "Fail(%d)" % self[0]
+
+
+def status_of(e, k):
+    """the value spawn_bash returns for the k-th run"""
+    if isinstance(e, Fail):
+        return e.status
+    return 0 if e else 1 + k % 90
+
+
+def status_text(e, k):
+    st = status_of(e, k)
+    if st >= 256:
+        return "%d (killed by signal %d%s)" % (st, (st >> 8) & 0x7F, ", core dumped" if (st >> 8) & 0x80 else "")
+    return st
+
+
+SIGNALS = [1, 2, 3, 6, 9, 11, 13, 15]
+STATUSES = [1, 2, 8, 92, 126, 127, 128, 137, 143, 255] + [sig << 8 for sig in SIGNALS] + [(0x80 | sig) << 8 for sig in (3, 6, 11)]
 
 
 def hval(name, content):
@@ -179,7 +227,8 @@ echo $((k + 1)) > "$plan/counter"
 if [ -e "$4" ]; then /bin/cp "$4" "$plan/handed.$k"; fi
 echo "$2 $3" >> "$plan/log"
 if [ -e "$plan/out.$k" ]; then /bin/cp "$plan/out.$k" "$4"; else /bin/rm -f "$4"; fi
-read rc < "$plan/exit.$k"
+read how rc < "$plan/exit.$k"
+if [ "$how" = kill ]; then kill -$rc $$; fi
 exit $rc
 """
 
@@ -205,42 +254,77 @@ def classify(exc, errors):
 COARSE = {"returned": "returned", "missing": "missing", "chksum": "chksum", "toosmall": "toosmall", "empty": "failed", "nouris": "failed"}
 
 
-def run_real(case, scratch, real_bash):
-    """run fetcher on real files; returns dict(result, final, steps=[(cmd, uri_index, handed content)], path_ok)"""
-    from pkgcore.fetch import custom, errors, fetchable, uri_list
-    d = scratch.fresh()
-    distdir = os.path.join(d, "distdir")
-    path = os.path.join(distdir, FNAME)
-    if case["file0"] is not None:
-        with open(path, "wb") as f:
-            f.write(case["file0"])
-    uris = ["http://mirror%d.example.org/pub/%s" % (k, FNAME) for k in range(len(case["outs"]))]
-    if case.get("uri_list"):
-        ul = uri_list(FNAME)
-        for u in uris:
-            ul.add_uri(u)
-        ul.finalize()
-        target = fetchable(FNAME, uri=ul, chksums=dict(case["chksums"]))
-    else:
-        target = fetchable(FNAME, uri=tuple(uris), chksums=dict(case["chksums"]))
-    steps = []
-    try:
+class Session:
+    """ONE long-lived custom.fetcher object on ONE distdir; fetches are issued on it one after the other (a stand-alone
+    case is a session with a single fetch).  The external fetch command is a recording stub for spawn_bash, or a real
+    bash script run through the real spawn_bash."""
+
+    def __init__(self, scratch, attempts, real_bash):
+        from pkgcore.fetch import custom
+        self.scratch, self.real_bash, self.attempts = scratch, real_bash, attempts
+        self.d = scratch.fresh()
+        self.distdir = os.path.join(self.d, "distdir")
+        self.plan = os.path.join(self.d, "plan")
+        self.nfetches = 0
         if real_bash:
-            plan = os.path.join(d, "plan")
+            self.fetcher = custom.fetcher(
+                distdir=self.distdir,
+                command='bash %s %s fresh "\\${URI}" "${DISTDIR}/${FILE}"' % (scratch.script, self.plan),
+                resume_command='bash %s %s resume "$URI" "$DISTDIR/$FILE"' % (scratch.script, self.plan),
+                userpriv=False, attempts=attempts, PATH="/usr/bin:/bin")
+        else:
+            self.fetcher = custom.fetcher(
+                distdir=self.distdir, command="FETCH-FRESH ${URI} -o ${DISTDIR}/${FILE}",
+                resume_command="FETCH-RESUME $URI -o $DISTDIR/$FILE", userpriv=False, attempts=attempts)
+
+    def close(self):
+        shutil.rmtree(self.d, ignore_errors=True)
+
+    def fetch(self, case):
+        """one fetch on the long-lived object; returns dict(result, final, steps=[(cmd, uri_index, handed content)], path_ok, reread).
+        case["file0"] is put in place first, unless case["inherit"]: then the file the earlier fetches of the session left
+        stays as it is and is recorded as case["file0"]."""
+        from pkgcore.fetch import custom, errors, fetchable, uri_list
+        fname = case.get("fname", FNAME)
+        distdir, fetcher = self.distdir, self.fetcher
+        assert case["attempts"] == self.attempts
+        self.nfetches += 1
+        path = os.path.join(distdir, fname)
+        if case.get("inherit"):
+            case["file0"] = read_file(path)
+        elif case["file0"] is not None:
+            with open(path + ".new", "wb") as f:          # replaced from outside: a new inode, like any downloader/rsync would make
+                f.write(case["file0"])
+            os.replace(path + ".new", path)
+        else:
+            try:
+                os.unlink(path)
+            except FileNotFoundError:
+                pass
+        uris = ["http://mirror%d.example.org/pub/r%d/%s" % (k, self.nfetches, fname) for k in range(len(case["outs"]))]
+        if case.get("uri_list"):
+            ul = uri_list(fname)
+            for u in uris:
+                ul.add_uri(u)
+            ul.finalize()
+            target = fetchable(fname, uri=ul, chksums=dict(case["chksums"]))
+        else:
+            target = fetchable(fname, uri=tuple(uris), chksums=dict(case["chksums"]))
+        steps = []
+        if self.real_bash:
+            plan = self.plan
+            shutil.rmtree(plan, ignore_errors=True)
             os.makedirs(plan)
             with open(os.path.join(plan, "counter"), "w") as f:
                 f.write("0\n")
-            for k, (content, exit0) in enumerate(case["outs"]):
+            for k, (content, e) in enumerate(case["outs"]):
                 if content is not None:
                     with open(os.path.join(plan, "out.%d" % k), "wb") as f:
                         f.write(content)
+                st = status_of(e, k)
                 with open(os.path.join(plan, "exit.%d" % k), "w") as f:
-                    f.write("0\n" if exit0 else "%d\n" % (1 + k % 90))
-            fetcher = custom.fetcher(
-                distdir=distdir,
-                command='bash %s %s fresh "\\${URI}" "${DISTDIR}/${FILE}"' % (scratch.script, plan),
-                resume_command='bash %s %s resume "$URI" "$DISTDIR/$FILE"' % (scratch.script, plan),
-                userpriv=False, attempts=case["attempts"], PATH="/usr/bin:/bin")
+                    # a status >= 256 is "killed by signal (status >> 8) & 0x7f": the script kills itself with that signal
+                    f.write("exit %d\n" % st if st < 256 else "kill %d\n" % ((st >> 8) & 0x7F))
             try:
                 got = fetcher(target) if uris else fetcher.fetch(target)
                 result = "returned"
@@ -251,10 +335,6 @@ def run_real(case, scratch, real_bash):
                 mode, uri = line.split(" ", 1)
                 steps.append((mode, uris.index(uri) if uri in uris else -1, read_file(os.path.join(plan, "handed.%d" % k))))
         else:
-            fetcher = custom.fetcher(
-                distdir=distdir, command="FETCH-FRESH ${URI} -o ${DISTDIR}/${FILE}",
-                resume_command="FETCH-RESUME $URI -o $DISTDIR/$FILE", userpriv=False, attempts=case["attempts"])
-
             def fake_spawn(cmd, **kw):
                 k = len(steps)
                 words = cmd.split(" ")
@@ -263,7 +343,7 @@ def run_real(case, scratch, real_bash):
                 if words[-1] != path:
                     mode = "?dest"
                 steps.append((mode, ui, read_file(path)))
-                content, exit0 = case["outs"][k]
+                content, e = case["outs"][k]
                 if content is None:
                     try:
                         os.unlink(path)
@@ -272,7 +352,7 @@ def run_real(case, scratch, real_bash):
                 else:
                     with open(path, "wb") as f:
                         f.write(content)
-                return 0 if exit0 else 1 + k % 90
+                return status_of(e, k)
 
             with mock.patch("pkgcore.fetch.custom.spawn_bash", side_effect=fake_spawn):
                 try:
@@ -291,8 +371,17 @@ def run_real(case, scratch, real_bash):
         except Exception as e:
             reread = "other:" + type(e).__name__
         return {"result": result, "final": final, "steps": steps, "path_ok": got is None or got == path, "reread": reread}
+
+
+def run_real(case, scratch, real_bash, session=None):
+    """run fetch on real files, on a fresh fetcher object or as the next fetch of a session"""
+    if session is not None:
+        return session.fetch(case)
+    session = Session(scratch, case["attempts"], real_bash)
+    try:
+        return session.fetch(case)
     finally:
-        shutil.rmtree(d, ignore_errors=True)
+        session.close()
 
 
 # ------------------------------------------------------------------ generators
@@ -311,6 +400,51 @@ def target_classes(data):
     ]
 
 
+def gen_exit(rng, p_ok=0.6):
+    """exit part of an outcome: status 0, a position-dependent exit code, or an explicit exit code / signal kill"""
+    if rng.random() < p_ok:
+        return True
+    return False if rng.random() < 0.5 else Fail(rng.choice(STATUSES))
+
+
+def gen_session(rng):
+    """a history on ONE fetcher object and distdir: 2-4 fetches, mostly of the same file name, whose targets are the
+    same distfile again, a re-rolled one (same name; same size and other content, longer with the old file as a
+    prefix, shorter) or a target of another class (Manifest gained/lost hashes); the file the previous fetch left
+    stays in place (mostly) or is replaced from outside; now and then a second file name is interleaved."""
+    L = rng.choice([1, 2, 5, 9, 17, 40, 200])
+    base = bytes(rng.randrange(256) for _ in range(L))
+    flip = bytearray(base)
+    flip[rng.randrange(L)] ^= 0x2A
+    versions = [base, bytes(flip), base + bytes(rng.randrange(256) for _ in range(rng.randint(1, 9))), base[: L - 1 - rng.randrange(L)]]
+    attempts = rng.choice([1, 2, 2, 3, 4])
+    weights = {"missing": 2, "empty": 1, "partial": 3, "oversized": 1, "corrupt": 1, "correct": 6, "garbage": 1}
+    pool = [k for k, w in weights.items() for _ in range(w)]
+    steps, prev = [], {}
+    for i in range(rng.choice([2, 2, 3, 3, 4])):
+        fname = FNAME2 if rng.random() < 0.15 else FNAME
+        r = rng.random()
+        if fname in prev and r < 0.25:
+            data = prev[fname]                                   # the same distfile asked for again
+        else:
+            data = rng.choice(versions[:3] * 2 + versions[3:])
+        classes = target_classes(data)
+        tname, chk = rng.choice(classes[:4] * 4 + classes[4:])
+        prev[fname] = data
+        size = chk.get("size")
+        outs = [(content_of(rng.choice(pool), data, size, rng), gen_exit(rng, 0.7)) for _ in range(rng.choice([1, 2, 3, 4]))]
+        case = {"tname": tname, "data": data, "chksums": chk, "attempts": attempts, "file0": None, "outs": outs,
+                "fname": fname, "uri_list": rng.random() < 0.2}
+        if i == 0 and rng.random() < 0.3:
+            case["file0"] = content_of(rng.choice(pool), data, size, rng)
+        elif i > 0 and rng.random() < 0.85:
+            case["inherit"] = True
+        elif i > 0:
+            case["file0"] = content_of(rng.choice(pool + ["missing"] * 3), data, size, rng)
+        steps.append(case)
+    return {"attempts": attempts, "steps": steps}
+
+
 def gen_case(rng):
     L = rng.choice([0, 1, 2, 5, 5, 9, 17, 40, 200])
     data = bytes(rng.randrange(256) for _ in range(L))
@@ -321,7 +455,7 @@ def gen_case(rng):
     weights = {"missing": 3, "empty": 2, "partial": 4, "oversized": 1, "corrupt": 1, "correct": 2, "garbage": 1}
     pool = [k for k, w in weights.items() for _ in range(w)]
     file0 = content_of(rng.choice(pool + ["missing"] * 6), data, size, rng)
-    outs = [(content_of(rng.choice(pool), data, size, rng), rng.random() < 0.6) for _ in range(nuris)]
+    outs = [(content_of(rng.choice(pool), data, size, rng), gen_exit(rng)) for _ in range(nuris)]
     return {"tname": tname, "data": data, "chksums": chk, "attempts": attempts, "file0": file0, "outs": outs,
             "uri_list": rng.random() < 0.2}
 
@@ -365,6 +499,13 @@ def corpus(rng):
         C({}, 3, None, [(None, True), (b"", True), (b"", True)]),
         C(mk_target(data, None, ["sha256"]), 2, None, [(b"", True), (data, True)]),
         C(mk_target(data, None, ["sha256"]), 3, None, [(half, True), (data, True)]),
+        # any exit status: exit codes beyond the small ones, and a fetch command killed by a signal (spawn_bash: signal << 8)
+        C({}, 2, None, [(half, Fail(255)), (data, True)]),
+        C({}, 2, None, [(half, Fail(15 << 8)), (data, True)]),
+        C({}, 1, None, [(half, Fail(9 << 8))]),
+        C({}, 3, None, [(None, Fail(13 << 8)), (data, Fail((0x80 | 11) << 8)), (data, True)]),
+        C(mk_target(data, None, ["sha256"]), 2, None, [(half, Fail(2 << 8)), (data, Fail(1 << 8))]),
+        C(full, 2, None, [(half, Fail(15 << 8)), (data, Fail(9 << 8))]),
         # resume chain, URIs exhausted before the attempts
         C(full, 4, None, [(data[:3], False), (data[:9], False)]),
         C(full, 4, None, [(data[:3], False), (data[:9], False), (data, False)], uri_list=True),
@@ -412,6 +553,8 @@ def exhaustive(ctx, rng, run_one):
                         if len(prefix) < attempts and len(real["steps"]) == len(prefix) and real["result"] == "failed" \
                                 and (real["final"] is None or not wrong(real["final"], chk)):
                             alphabet = OUTCOME_ALPHABET if len(prefix) < 2 else [a for a in OUTCOME_ALPHABET if a[1] or a[0] in ("partial", "correct", "missing")]
+                            if not chk:        # the exit status is the only evidence: also a run killed by a signal
+                                alphabet = alphabet + [(k, Fail(15 << 8)) for k in ("missing", "partial", "correct")]
                             nxt.extend(prefix + [a] for a in alphabet)
                     frontier = nxt
     ctx.extra["exhaustive_tree_cases"] = total
@@ -431,14 +574,16 @@ def run(ctx):
     def describe(case):
         return {"target": case["tname"], "chksums": {k: (v if k == "size" else "%x" % v) for k, v in case["chksums"].items()},
                 "expected_data": fmt(case["data"]), "attempts": case["attempts"], "file0": fmt(case["file0"]),
-                "outs": [[fmt(c), 0 if e else 1] for c, e in case["outs"]]}
+                "outs": [[fmt(c), status_text(e, k)] for k, (c, e) in enumerate(case["outs"])],
+                **({"file_name": case["fname"]} if "fname" in case else {}),
+                **({"earlier_fetches_on_the_same_fetcher_object": case["history"]} if case.get("history") else {})}
 
-    def run_one(case, real_bash=False, around=None):
+    def run_one(case, real_bash=False, around=None, session=None):
         """run one case on the real code and evaluate the property clauses; `around` = description of the
         model/implementation mismatch this case is a neighbour of (then it is not sent to the model again)"""
         chk = case["chksums"]
         try:
-            real = run_real(case, scratch, real_bash)
+            real = run_real(case, scratch, real_bash, session)
         except Exception as e:   # anything but a FetchError escaping fetch() breaks the property's premise
             ctx.violation(describe(case), f"fetch raised {type(e).__name__}: {e}")
             return None
@@ -451,9 +596,14 @@ def run(ctx):
         executed = case["outs"][:nsteps]
         key = repr((sorted((k, v if k == "size" else "h") for k, v in chk.items()), case["tname"], case["attempts"],
                     abstract(case["file0"], chk, case["data"]), [(abstract(c, chk, case["data"]), e) for c, e in executed],
-                    len(case["outs"]) > nsteps, real_bash))
+                    len(case["outs"]) > nsteps, real_bash, bool(case.get("history"))))
         ctx.case(d, nontrivial=nsteps >= 1, key=key)
         ctx.count("via_" + d["via"])
+        if session is not None:
+            ctx.count("fetch_%d_on_one_fetcher" % session.nfetches)
+            if case.get("history"):
+                ctx.count("file0_%s_target_%s" % ("inherited" if case.get("inherit") else "replaced",
+                                                  "same" if case["history"][-1]["chksums"] == d["chksums"] else "changed"))
         ctx.count("target_" + case["tname"])
         ctx.count("attempts_%d" % case["attempts"])
         ctx.count("uris_%d" % len(case["outs"]))
@@ -463,6 +613,8 @@ def run(ctx):
             kind = ("missing" if c is None else "acceptable" if acceptable(c, e, chk) else "wrong" if wrong(c, chk) else
                     "partial" if partial(c, chk) else "empty" if len(c) == 0 else "verified-but-rejected" if verified(c, chk) else "other")
             ctx.count("outcome_%s_exit%s" % (kind, "0" if e else "N"))
+            if isinstance(e, Fail):
+                ctx.count("status_signal" if e.status >= 256 else "status_exitcode_explicit")
         for mode, _, _ in real["steps"]:
             ctx.count("cmd_" + mode)
         ctx.traces += 1
@@ -495,7 +647,7 @@ def run(ctx):
                 elif not acceptable(c, e, chk):
                     later = [k for k in range(nsteps, budget) if acceptable(case["outs"][k][0], case["outs"][k][1], chk)]
                     ctx.violation(d, f"fetch returned after {nsteps} of {budget} allowed runs, reporting the result of run {nsteps - 1} "
-                                     f"(content {fmt(c)}, exit {'0' if e else '!=0'}), which is not an acceptable download"
+                                     f"(content {fmt(c)}, status {status_text(e, nsteps - 1)}), which is not an acceptable download"
                                      + (f"; unused run(s) {later} would have left a correct file" if later else ""))
         elif real["reread"] == "returned":
             ctx.violation(d, f"fetch raised {real['result']} although the file it left at the path passes get_path() of a fresh fetcher")
@@ -535,7 +687,7 @@ def run(ctx):
         outcomes, no initial file, smaller budgets), flipped exit statuses, and the follow-up that makes an early
         or wrong stop observable (one more URI/attempt that delivers the correct file)"""
         outs, n, data = case["outs"], case["attempts"], case["data"]
-        mk = lambda **kw: dict({k: v for k, v in case.items() if k != "exh"}, **kw)
+        mk = lambda **kw: dict({k: v for k, v in case.items() if k not in ("exh", "inherit", "history")}, **kw)
         out = [mk()]
         for k in range(len(outs) + 1):
             for a in sorted({k, n, min(n, k + 1)}):
@@ -583,12 +735,33 @@ def run(ctx):
             ctx.note("replay: stored cases are descriptions; the corpus and the seeded generator are re-run instead")
         for i, c in enumerate(cases):
             run_one(c)
-            if i < ctx.n(8, len(cases)):          # a real bash run costs ~0.15 s here
+            # a real bash run costs ~0.15 s here; signal kills always also go through the real spawn_bash
+            if i < ctx.n(8, len(cases)) or any(isinstance(e, Fail) and e.status >= 256 for _, e in c["outs"]):
                 run_one(c, real_bash=True)
-        for i in range(ctx.n(3000, 40000)):
+        for i in range(ctx.n(2400, 40000)):
             run_one(gen_case(rng))
         for i in range(ctx.n(12, 600)):
             run_one(gen_case(rng), real_bash=True)
+        # histories: several fetches on one long-lived fetcher object / distdir; every fetch is a case of its own
+        # (initial file = what is at the path when it starts) and must satisfy every clause, whatever came before
+        for i in range(ctx.n(350, 6000) + ctx.n(6, 150)):
+            real_bash = i >= ctx.n(350, 6000)
+            sess = gen_session(rng)
+            session = Session(scratch, sess["attempts"], real_bash)
+            try:
+                history = []
+                for case in sess["steps"]:
+                    case["history"] = list(history)
+                    real = run_one(case, real_bash=real_bash, session=session)
+                    if real is None:
+                        break
+                    dd = describe(case)
+                    dd.pop("earlier_fetches_on_the_same_fetcher_object", None)
+                    dd["result"] = real["result"]
+                    dd["file_left"] = fmt(real["final"])
+                    history.append(dd)
+            finally:
+                session.close()
         if not ctx.quick():
             exhaustive(ctx, rng, run_one)
         compare_with_model(ctx, pending, explore)
@@ -605,7 +778,7 @@ def compare_with_model(ctx, pending, explore):
         reqs.append({"cmd": "c36.fetch",
                      "target": {"size": chk.get("size"), "other": any(h != "size" for h in chk)},
                      "attempts": case["attempts"], "file0": abstract(case["file0"], chk, data),
-                     "outs": [{"file": abstract(c, chk, data), "exit0": bool(e)} for c, e in case["outs"]]})
+                     "outs": [{"file": abstract(c, chk, data), "status": status_of(e, k)} for k, (c, e) in enumerate(case["outs"])]})
     for (case, d, real), rep in zip(pending, ctx.model(reqs)):
         chk, data = case["chksums"], case["data"]
         if not isinstance(rep, dict):
